@@ -613,12 +613,62 @@ func resolveDescendant(c xnode, path []xml.Name) string {
 			return resolveDescendant(ch, tl)
 		case Leaf:
 			// Compiler enforces non-empty leaf reference
-			return ch.YangDataValuesNoSorting()[0]
+			return canonicalNumber(csn.Type(), ch.YangDataValuesNoSorting()[0])
 		default:
 			return ""
 		}
 	}
 	return ""
+}
+
+// canonicalNumber gives the values of integer and decimal64 leaves one
+// spelling each (no plus sign, no leading zeros, no trailing zeros of the
+// fraction, no negative zero), so that unique compares values: "+5", "05"
+// and "5" are one value, "1.50" and "1.5" are.  The digits are kept as
+// they are (no conversion that could round); anything that is not a
+// number of the type is returned unchanged.
+func canonicalNumber(t Type, v string) string {
+	decimal := false
+	switch t.(type) {
+	case Integer, Uinteger:
+	case Decimal64:
+		decimal = true
+	default:
+		return v
+	}
+	s := v
+	neg := false
+	if len(s) > 0 && (s[0] == '+' || s[0] == '-') {
+		neg = s[0] == '-'
+		s = s[1:]
+	}
+	ip, fp := s, ""
+	if i := strings.IndexByte(s, '.'); i >= 0 {
+		if !decimal {
+			return v
+		}
+		ip, fp = s[:i], s[i+1:]
+		if fp == "" {
+			return v
+		}
+	}
+	if ip == "" || strings.Trim(ip, "0123456789") != "" ||
+		strings.Trim(fp, "0123456789") != "" {
+		return v
+	}
+	ip = strings.TrimLeft(ip, "0")
+	if ip == "" {
+		ip = "0"
+	}
+	fp = strings.TrimRight(fp, "0")
+	out := ip
+	if fp != "" {
+		out += "." + fp
+	}
+	if neg && out != "0" {
+		out = "-" + out
+	}
+	return out
 }
 
 // descendantExists reports whether the leaf a unique path names is present
